@@ -138,21 +138,32 @@ def worker(q, out, lock, node):
 
 def main():
     global FAST
-    args = sys.argv[1:]; j = 6; node = False; outp = None; only = None; specs = []
+    args = sys.argv[1:]; j = 6; node = False; outp = None; only = None; specs = []; recheck = None
     i = 0
     while i < len(args):
         if args[i] == "-j": j = int(args[i+1]); i += 2
         elif args[i] == "-node": node = True; i += 1
         elif args[i] == "-o": outp = args[i+1]; i += 2
         elif args[i] == "-only": only = args[i+1].split(","); i += 2
+        elif args[i] == "-recheck": recheck = args[i+1]; i += 2
         else: specs.append(args[i]); i += 1
     rc, o = sh(["go", "list", "./src/..."], REPO)
     FAST = [p for p in o.split() if p.startswith("github.com") and not p.endswith("/src/node") and not p.endswith("/src/net") and "/net/signal" not in p and not p.endswith("/src/babble") and "/mobile" not in p]
     FAST = ["./" + p.split("babble/", 1)[1] for p in FAST]
     q = queue.Queue(); n = 0
+    if recheck:
+        # re-run the MISSED mutants of an earlier scan (same tree) against the current checker
+        want = set()
+        for l in open(recheck):
+            f = l.rstrip("\n").split("\t")
+            if f[0].startswith("MISSED"):
+                want.add((f[1], f[2], f[4].split("  ->  ")[1]))
+                specs.append(f[1].rsplit(":", 1)[0])
+        specs = sorted(set(specs))
     for s in specs:
         for mu in gen(s):
             if only and not any(mu[2].startswith(k) for k in only): continue
+            if recheck and ("%s:%d" % (mu[0], mu[1]), mu[2], mu[4].strip()) not in want: continue
             q.put(mu); n += 1
     sys.stderr.write("mutscan: %d mutants\n" % n)
     out = open(outp, "a") if outp else sys.stdout
